@@ -1104,6 +1104,7 @@ impl FromStr for Tag {
             }
             8 => {
                 // ggggeeee
+                ensure!(s.is_char_boundary(4), NumberSnafu);
                 let (g, e) = s.split_at(4);
                 let (num_g, _) = parse_tag_part(g)?;
                 let (num_e, _) = parse_tag_part(e)?;
